@@ -526,6 +526,8 @@ fn explore_cmd(args: &[String]) -> Value {
         *err_ns += dr;
     };
     let mut history: Vec<Value> = vec![];
+    // (bound, instant of validity) of the recent answered reports, whatever their class
+    let mut reports: Vec<(i64, i128)> = vec![];
     for poll in 0..polls {
         if !alive {
             if p.start().is_err() {
@@ -584,8 +586,14 @@ fn explore_cmd(args: &[String]) -> Value {
                 Some(tracking(rng.gen_range(0..3), SystemTime::now(), if off == 0 { cf(0, -30) } else { corr }, cf_at_least(rest.max(1))))
             }
         };
-        if reply.is_some() {
+        if let Some(t) = reply.as_ref() {
             last_good_ns = Some(if po == "mono_first" { t_second } else { t_first });
+            // the bound this report carries (|offset| + dispersion, delay 0), and the instant it was valid at
+            let b = ((f64::from(t.current_correction).abs() + f64::from(t.root_dispersion)) * 1e9).ceil() as i64;
+            reports.push((b, if po == "mono_first" { t_second } else { t_first }));
+            if reports.len() > 64 {
+                reports.remove(0);
+            }
         }
         if kind >= 5 && !tight && rng.gen_range(0..3) == 0 {
             // chronyd corrects the clock after reporting: the error changes sign and does not grow
@@ -603,7 +611,20 @@ fn explore_cmd(args: &[String]) -> Value {
         if history.len() > 12 {
             history.remove(0);
         }
-        let _ = p.deliver(msg);
+        if let Some(rec) = p.deliver(msg) {
+            // C12 (poller half, on the published record): the as-of instant is not later than the instant at which
+            // the report that carries the published bound was valid - whichever report the daemon chose to track
+            let (as_of, _, bound, _, _) = fields(&rec);
+            let cands: Vec<i128> = reports.iter().filter(|(b, _)| (*b - bound).abs() <= 2).map(|(_, t)| *t).collect();
+            if as_of != 0 && !cands.is_empty() {
+                let latest = *cands.iter().max().unwrap();
+                if as_of > M0 * G + latest && violations.len() < 5 {
+                    violations.push(json!({"property": "C12", "signature": "as-of-later-than-its-report",
+                        "what": format!("poll {poll}: the published record pairs bound {bound} ns with as_of {as_of} ns, but the latest report carrying that bound was valid at {} ns: the as-of instant is not a reading taken before that request", M0 * G + latest),
+                        "history": history.clone()}));
+                }
+            }
+        }
         // --- clients ask at random and adversarial instants until the next poll
         let n_asks = rng.gen_range(0..4);
         let mut spent: i128 = 0;
